@@ -298,6 +298,8 @@ def sched_plan(tier):
         ([[('pop', 'a')], [('pop', 'a')]], init_f, None),
         ([[('items',)], [SETF]], init_2, None),
         ([[GET], [SETF], [SETI]], init_f, 1 if tier == 'quick' else 2),
+        ([[GET], [SETF, SETF2]], init_f, 2),      # two replacements in a row
+        ([[('getd', 'a')], [SETF2, SETF]], init_f, 2),
         ([[SD], [SD], [GET]], [], 1 if tier == 'quick' else 2),
     ]
     if tier == 'thorough':
